@@ -196,8 +196,9 @@ pub fn run(lines: &[Vec<String>]) {
     let t = w.steps_stats();
     let wr = rec.log.lock().unwrap().iter().filter(|l| l.starts_with("write:")).count();
     println!(
-        "RESULT sc_passed={} sc_skipped={} sc_failed={} sc_retried={} st_passed={} st_skipped={} st_failed={} st_retried={} parsing_errors={} failed_hooks={} failed={} inner_events={} summary_writes={}",
+        "RESULT sc_passed={} sc_skipped={} sc_failed={} sc_retried={} st_passed={} st_skipped={} st_failed={} st_retried={} g_passed={} g_skipped={} g_failed={} g_retried={} parsing_errors={} failed_hooks={} failed={} inner_events={} summary_writes={}",
         s.passed, s.skipped, s.failed, s.retried, t.passed, t.skipped, t.failed, t.retried,
+        writer::Stats::<W>::passed_steps(&w), writer::Stats::<W>::skipped_steps(&w), writer::Stats::<W>::failed_steps(&w), writer::Stats::<W>::retried_steps(&w),
         writer::Stats::<W>::parsing_errors(&w), writer::Stats::<W>::hook_errors(&w),
         writer::Stats::<W>::execution_has_failed(&w),
         rec.log.lock().unwrap().len() - wr, wr,
